@@ -231,6 +231,7 @@ where
         delay: &mut DELAY,
     ) -> Result<(), SPI::Error> {
         self.wait_until_idle(spi, delay)?;
+        self.use_full_frame(spi, delay)?;
         self.interface.cmd_with_data(spi, Command::WriteRam, buffer)
     }
 
@@ -278,6 +279,7 @@ where
 
     fn clear_frame(&mut self, spi: &mut SPI, delay: &mut DELAY) -> Result<(), SPI::Error> {
         self.wait_until_idle(spi, delay)?;
+        self.use_full_frame(spi, delay)?;
 
         // clear the ram with the background color
         let color = self.background_color.get_byte_value();
@@ -417,6 +419,7 @@ where
         delay: &mut DELAY,
     ) -> Result<(), SPI::Error> {
         self.wait_until_idle(spi, delay)?;
+        self.use_full_frame(spi, delay)?;
         self.interface
             .cmd_with_data(spi, Command::WriteRam, buffer)?;
         self.interface
